@@ -143,4 +143,36 @@ CHECKS = {
                 "grammars.",
         "note": "Trusted: rustc (sandbox stable toolchain). The generator's template logic is not proved for all grammar shapes.",
     },
+    "C02": {
+        "engine": "mirfacts",
+        "level": "other",
+        "ref": "DESIGN.md §5 C02",
+        "technique": 'argument provenance and ordering rules over MIR by path simulation (LR driver, stacks, builder), finite decision table of next_token, structural rules on table construction and generated STOP recognisers',
+        "text": "Decides necessary structural clauses of 'the tree is a derivation of the consumed input': Reduce cells are (prod, position) of reducing items; cells only mutated by allowed operations; the LR driver pops/gotos/pushes/calls the builder with the table's (prod, len) and shifts the token that selected the action; stacks split exactly and keep order; result is the top of the builder stack; complete next_token table (synthetic STOP only under partial_parse and STOP expected); generated STOP recogniser matches only at the end. Partial: not the language, not the gotos.",
+        "note": 'Trusted: rustc MIR of the generic runtime (pre-monomorphisation); user builders follow the LRBuilder protocol.',
+    },
+    "C12": {
+        "engine": "mirfacts",
+        "level": "other",
+        "ref": "DESIGN.md §5 C12",
+        "technique": 'finite decision table of the LR error path, argument provenance of the error value, ordering rules, GLR error-path rules by path simulation',
+        "text": "Decides where the reported offset and expected set come from (LR and GLR), that whitespace is skipped before the position is read, that errors are neither swallowed nor invented and Ok is only reached through Accept. Partial: does not decide that the table's error cells are exactly the non-viable prefixes, nor line/column arithmetic.",
+        "note": 'Trusted: rustc MIR; the table itself (C01/C04 territory).',
+    },
+    "C13": {
+        "engine": "mirfacts",
+        "level": "other",
+        "ref": "DESIGN.md §5 C13",
+        "technique": 'argument provenance of span endpoints and token values over MIR (LR, lexer, GLR), LR/GLR sibling agreement, byte-unit rule, validation of generated recognisers',
+        "text": "Decides where span endpoints come from on shift/reduce/empty-reduce (LR and GLR), that the two parsers anchor empty spans alike, the lexer's token value/span/input slice, whitespace skipping, Tree::build span hand-off, that position_after measures in bytes, and on generated code that recognisers return input slices and anchor regexes as a whole (two known findings). Partial: not the arithmetic of line/column, not ordering of spans for concrete inputs.",
+        "note": 'Trusted: rustc MIR; Context implementations are trivial setters/getters.',
+    },
+    "C14": {
+        "engine": "mirfacts",
+        "level": "other",
+        "ref": "DESIGN.md §5 C14",
+        "technique": 'ordering/must-pass-through and provenance rules on every hand-off of layout (path simulation), finite tables for configuration wiring',
+        "text": 'Decides each hand-off of layout in the LR parser: tried only without a token and in the layout state, stored before the retry, restored after the re-lex that follows a reduce, reset after a shift, whitespace skipper slice/position, builders store it on the right node, layout parser returns an input slice, AUGL lookup and skip_ws && !has_layout. Partial: not the round trip itself.',
+        "note": 'Trusted: rustc MIR; GLR trees drop layout by design (property stated for LR).',
+    },
 }
